@@ -123,7 +123,12 @@ def loop_label(F, rep):
         for c in nodes(arm["body"], "MethodCall"):
             if callee(c) == IRM + "IRCodeGen::statement":
                 a = call_args(c)
-                is_lit = any(x is lits[0] for x in nodes(a[2])) if len(a) > 2 else False
+                is_lit = False
+                if len(a) > 2:
+                    v = peel(a[2])
+                    if v.get("k") == "Path" and v.get("res") == "Local":
+                        v = peel(fl.trace(v))
+                    is_lit = any(x is lits[0] for x in nodes(v))
                 if is_lit and tc.root_field(fl, a[1]).startswith("body"):
                     ok_body = True
     rep.ob("LOOP-LABEL", "IRCodeGen::statement|Loop|fresh-label", ok_lit,
